@@ -206,6 +206,37 @@ let cmd_sgchk t =
   let sg = List.init n (fun _ -> next_zlist t) in
   out_int (if search_graph_chk (nat_of_int n) ki kd sg vo (nat_of_int maxdeg) then 1 else 0)
 
+let out_pairs l = List.iter (fun (a, b) -> out_z a; out_z b; out_str ",") l
+let next_pairs t n = List.init n (fun _ -> let a = next_z t in let b = next_z t in (a, b))
+
+(* eutree n dim leaf_size max_depth rng[3] data[n*dim] *)
+let cmd_eutree t =
+  let n = next_int t in let dim = next_int t in let ls = next_int t in let md = next_int t in
+  let rng = next_list t 3 in
+  let data = next_mat t n dim in
+  let (lt, rng') = make_euclidean_tree data (nat_of_int dim) (nat_of_int n) (nat_of_int ls) (nat_of_int md) rng in
+  out_pairs lt.lt_children; out_sep (); out_mat lt.lt_indices; out_sep (); out_list rng'; out_sep ();
+  (match convert_tree_format lt (nat_of_int n) with
+   | None -> out_str "FUEL"
+   | Some f -> out_pairs f.ft_children; out_sep (); out_list f.ft_indices);
+  out_sep ();
+  let mx = List.fold_left (fun m l -> max m (List.length l)) ls lt.lt_indices in
+  out_mat (leaf_rows lt (nat_of_int mx))
+
+(* flatchk n nn children[2*nn] indices[n] *)
+let cmd_flatchk t =
+  let n = next_int t in let nn = next_int t in
+  let ch = next_pairs t nn in
+  let idx = next_zlist t in
+  out_int (if flat_chk (nat_of_int n) { ft_children = ch; ft_indices = idx } then 1 else 0)
+
+(* linkedchk n leaf_size max_depth nn children[2*nn] then nn lists (len entries) *)
+let cmd_linkedchk t =
+  let n = next_int t in let ls = next_int t in let md = next_int t in let nn = next_int t in
+  let ch = next_pairs t nn in
+  let pts = List.init nn (fun _ -> next_zlist t) in
+  out_int (if linked_chk (nat_of_int n) (nat_of_int ls) (nat_of_int md) { lt_children = ch; lt_indices = pts } then 1 else 0)
+
 (*DISPATCH-BEGIN*)
 let dispatch : (string * (toks -> unit)) list = [
   ("heapseq", cmd_heapseq);
@@ -222,6 +253,9 @@ let dispatch : (string * (toks -> unit)) list = [
   ("divcsr", cmd_divcsr);
   ("prune", cmd_prune);
   ("sgchk", cmd_sgchk);
+  ("eutree", cmd_eutree);
+  ("flatchk", cmd_flatchk);
+  ("linkedchk", cmd_linkedchk);
 ]
 (*DISPATCH-END*)
 
